@@ -75,6 +75,8 @@ def run_tlc(module, cfg, workers=8, timeout=1200, extra=None, simulate=None, env
         cmd += extra
     cmd.append(module)
     env = dict(os.environ)
+    # recursive operators (KWalk over a 130-link chain, ReachFrom) need more than the default thread stack
+    env.setdefault("JAVA_TOOL_OPTIONS", "-Xss512m")
     if env_extra:
         env.update(env_extra)
     t0 = time.time()
